@@ -1127,9 +1127,62 @@ fn replay_line(line: &str, prop: &str, out: &mut Out) -> (String, String, Vec<(S
     (line.to_string(), o, h)
 }
 
+static SEEN_KEYS: std::sync::Mutex<std::collections::BTreeSet<String>> = std::sync::Mutex::new(std::collections::BTreeSet::new());
+
+/// does replaying `line` still raise the oracle `key`?
+fn still_fires(line: &str, prop: &str, key: &str) -> bool {
+    let mut scratch = Out::new("/verif/.work/vfs/shrink-scratch");
+    let (_, _, h) = replay_line(line, prop, &mut scratch);
+    h.iter().any(|x| x.1 == key)
+}
+
+/// delta debugging on the step list (bounded number of re-executions): the smallest history found
+/// that still raises the same oracle key
+fn shrink(line: &str, prop: &str, key: &str) -> String {
+    let (cfg, ops) = match line.split_once(" ops=") {
+        Some(x) => x,
+        None => return line.to_string(),
+    };
+    let mut steps: Vec<String> = ops.split(';').filter(|s| !s.is_empty()).map(|s| s.to_string()).collect();
+    let mk = |st: &[String]| format!("{} ops={}", cfg, st.join(";"));
+    if !still_fires(&mk(&steps), prop, key) {
+        return line.to_string();
+    }
+    let mut budget = 400;
+    let mut chunk = (steps.len() / 2).max(1);
+    while chunk >= 1 && budget > 0 {
+        let mut i = 0;
+        let mut removed_any = false;
+        while i < steps.len() && budget > 0 {
+            let end = (i + chunk).min(steps.len());
+            let mut cand = steps.clone();
+            cand.drain(i..end);
+            budget -= 1;
+            if !cand.is_empty() && still_fires(&mk(&cand), prop, key) {
+                steps = cand;
+                removed_any = true;
+            } else {
+                i = end;
+            }
+        }
+        if chunk == 1 && !removed_any {
+            break;
+        }
+        chunk = if chunk == 1 { 1 } else { chunk / 2 };
+        if chunk == 1 && !removed_any && steps.len() <= 2 {
+            break;
+        }
+    }
+    mk(&steps)
+}
+
 fn emit(out: &mut Out, case: &str, impl_line: &str, hits: Vec<(String, String, String)>) {
     use std::io::Write;
     for (p, k, w) in hits {
+        // the first report of a key carries a minimised history (later ones the original)
+        let first = SEEN_KEYS.lock().unwrap().insert(k.clone());
+        let shown = if first && case.len() > 400 { shrink(case, &p, &k) } else { case.to_string() };
+        let case = shown.as_str();
         let v = serde_json::json!({"prop": p, "key": k, "case": case, "what": w});
         writeln!(out.oracle, "{}", v).unwrap();
         out.n_oracle += 1;
